@@ -3,6 +3,7 @@ CONSTANTS
   Creators = {"g1", "g2", "g3"}
   MaxPkgs = 3
   ATOMIC = TRUE
+  REGFIRST = TRUE
   PTRACK = TRUE
-INVARIANTS C12_DistinctIds C12_SetupSucceedsOnAck C12_RoutedToHeaderChannel C12_InOrder C12_NoCrossTalk C12_NoReuseAfterClose
+INVARIANTS C12_DistinctIds C12_SetupSucceedsOnAck C12_RoutedToHeaderChannel C12_InOrder C12_NoCrossTalk C12_NoReuseAfterClose C12_AckReachesItsChannel
 CHECK_DEADLOCK FALSE
